@@ -143,6 +143,8 @@ type loopInfo struct {
 }
 
 func (u *Unit) loopsOf(fn *ssa.Function) map[*ssa.BasicBlock]*loopInfo {
+	u.P.mu.Lock()
+	defer u.P.mu.Unlock()
 	if li, ok := u.P.loopCache[fn]; ok {
 		return li
 	}
@@ -708,8 +710,9 @@ func (u *Unit) implFn(it types.Type) string {
 func (u *Unit) implFacts(it types.Type) {
 	fn := u.implFn(it)
 	iface := it.Underlying().(*types.Interface)
-	for id := 1; id < len(u.P.TW.typeByID); id++ {
-		ct := u.P.TW.typeByID[id]
+	all := u.P.TW.AllTypes()
+	for id := 1; id < len(all); id++ {
+		ct := all[id]
 		if _, isI := ct.Underlying().(*types.Interface); isI {
 			continue
 		}
